@@ -316,11 +316,11 @@ func main() {
 			c := map[string]any{"schema": vt, "definitions": d.Label, "phase": "trailing-comments", "trailer": tr}
 			switch {
 			case v.panic != "":
-				run.Report(fmt.Sprintf("C11|trailing-comments|panic|%s|form=%d", d.Label, ti), "ReadFile panicked: "+v.panic, c)
+				run.Report(fmt.Sprintf("C11|trailing-comments|form=%d|panic|%s", ti, d.Label), "ReadFile panicked: "+v.panic, c)
 			case !v.ok:
-				run.Report(fmt.Sprintf("C11|trailing-comments|rejected|%s|form=%d", d.Label, ti), "a comment trailing a line is rejected: "+v.err, c)
+				run.Report(fmt.Sprintf("C11|trailing-comments|form=%d|rejected|%s", ti, d.Label), "a comment trailing a line is rejected: "+v.err, c)
 			case v.canon != orig.canon:
-				run.Report(fmt.Sprintf("C11|trailing-comments|differs|%s|%s|form=%d", aspect(v.canon, orig.canon), d.Label, ti),
+				run.Report(fmt.Sprintf("C11|trailing-comments|form=%d|differs|%s|%s", ti, aspect(v.canon, orig.canon), d.Label),
 					"comments trailing a field, member or const changed what the File states (a trailing comment belongs to its own line, not to the next definition):\n"+firstDiffLine(v.canon, orig.canon), c)
 			}
 			outcomes.Add("trail" + fmt.Sprint(v.ok))
